@@ -93,44 +93,46 @@ Proof. vm_compute. reflexivity. Qed.
 
 (* ---------------------------------------------------------------------- (4) JSON *)
 Definition ib0 (_ : Z) : N := 0.
-(* 2^52 = 0x4330000000000000 as a double; ib maps the ints of the example to their doubles *)
-Definition ex_ib (z : Z) : N :=
-  if (z =? 1)%Z then 4607182418800017408 else if (z =? -2)%Z then 13835058055282163712 else 0.
 Definition ex_pval : pval :=
-  PMap [ ([97], PInt 1); ([98], PList [PStr [120; 34]; PNull; PBool true; PFloat 4609434218613702656]);
-         ([99], PMap [ ([100], PInt (-2)) ]); ([101], PMap []) ].
-Example ex_json_classes : enc_ok ex_pval = true /\ JsonSpec.spec_ok ex_pval = true /\ assoc_ok ex_ib ex_pval = true.
+  PMap [ ([97], PInt 9007199254740993); ([98], PList [PStr [120; 34]; PNull; PBool true; PFloat 4607182418800017408]);
+         ([99], PArr [ ([100], PInt (-2)) ]); ([101], PMap []) ].
+Example ex_json_classes : JsonSpec.spec_ok ex_pval = true /\ vkeys_ok ex_pval = true.
 Proof. vm_compute. repeat split. Qed.
-Example ex_json_default : json_decode false (json_encode ex_ib ex_pval) = Some ex_pval.
+Example ex_json_default :
+  match json_encode ib0 ex_pval with Some t => json_decode false 2 t | None => None end = Some (view false ex_pval).
 Proof. vm_compute. reflexivity. Qed.
-Example ex_json_assoc : json_decode true (json_encode ex_ib ex_pval) = Some (view true ex_pval).
+Example ex_json_assoc :
+  match json_encode ib0 ex_pval with Some t => json_decode true 2 t | None => None end = Some (view true ex_pval).
 Proof. vm_compute. reflexivity. Qed.
-Example ex_tokens : exact_tokens (JNum true 9007199254740992 4845873199050653696) = true
-                 /\ exact_tokens (JNum true 9007199254740993 4845873199050653696) = false.
-Proof. vm_compute. split; reflexivity. Qed.
+Example ex_json_depth :     (* one level less: NULL *)
+  match json_encode ib0 ex_pval with Some t => json_decode true 1 t | None => None end = None.
+Proof. vm_compute. reflexivity. Qed.
 
-(* refuted clauses: witnesses (known findings with keys json:enc:... and json:dec:...) *)
-Example json_keyed_array_refuted :                      (* json_encode(json_decode('{"a":1}', true)) = [1] *)
-  json_encode ib0 (PArr [([97], PInt 1)]) = JArr [JNum true 1 0]
-  /\ spec_to_json ib0 (PArr [([97], PInt 1)]) = Some (JObj [([97], JNum true 1 0)]).
-Proof. split; reflexivity. Qed.
-Example json_integral_float_refuted :                   (* 1.0 is written 1 and comes back as int 1 *)
-  json_decode true (json_encode ib0 (PFloat 4607182418800017408)) = Some (PInt 1).
-Proof. vm_compute. reflexivity. Qed.
+(* repaired defects (fix: 5e7a67e 678f9e3 c7a4539 8a43225 533d0f3 6cb91a5 be185a3 b365e34) *)
+Example ex_json_keyed_array : json_encode ib0 (PArr [([97], PInt 1)]) = Some (JObj [([97], JNum true 1 0)]).
+Proof. reflexivity. Qed.
+Example ex_json_float_stays_float : json_decode true 512 (JNum false 0 4607182418800017408) = Some (PFloat 4607182418800017408).
+Proof. reflexivity. Qed.
+Example ex_json_nan : json_encode ib0 (PList [PFloat 9221120237041090560]) = None.
+Proof. reflexivity. Qed.
+Example ex_json_bad_utf8 : json_encode ib0 (PStr [255]) = None.
+Proof. reflexivity. Qed.
+Example ex_json_bigint : json_decode true 512 (JNum true 9007199254740993 4845873199050653696) = Some (PInt 9007199254740993).
+Proof. reflexivity. Qed.
+Example ex_json_int_overflow :
+  json_decode false 512 (JObj [([110], JNum true 9223372036854775808 4890909195324358656)])
+  = Some (PMap [([110], PFloat 4890909195324358656)]).
+Proof. reflexivity. Qed.
+
+(* refuted clauses that remain (known findings json:dec:default:toplevel-..., json:dec:assoc:empty-key) *)
 Example json_toplevel_refuted :                         (* json_decode('[1]') = NULL, json_decode('null') = {} *)
-  decode_default (JArr [JNum true 1 4607182418800017408]) = None /\ decode_default JNull = Some (PMap []).
+  json_decode false 512 (JArr [JNum true 1 4607182418800017408]) = None
+  /\ json_decode false 512 JNull = Some (PMap []).
 Proof. split; reflexivity. Qed.
-Example json_bigint_refuted :                           (* 2^53+1 read through float64 *)
-  decode_assoc (JNum true 9007199254740993 4845873199050653696) = Some (PInt 9007199254740992).
-Proof. vm_compute. reflexivity. Qed.
-Example json_int_overflow_refuted :                     (* {"n":2^63}: whole decode fails; reference: a float *)
-  decode_default (JObj [([110], JNum true 9223372036854775808 4890909195324358656)]) = None
-  /\ spec_of_json false (JObj [([110], JNum true 9223372036854775808 4890909195324358656)])
-     = PMap [([110], PFloat 4890909195324358656)].
-Proof. split; vm_compute; reflexivity. Qed.
 Example json_empty_key_refuted :                        (* {"":7} in assoc mode is the list [7] *)
-  decode_assoc (JObj [([], JNum true 7 4619567317775286272)]) = Some (PList [PInt 7]).
-Proof. vm_compute. reflexivity. Qed.
+  json_decode true 512 (JObj [([], JNum true 7 4619567317775286272)]) = Some (PList [PInt 7])
+  /\ spec_decode true 512 (JObj [([], JNum true 7 4619567317775286272)]) = Some (PArr [([], PInt 7)]).
+Proof. split; reflexivity. Qed.
 
 (* the grammar (and the parser) take any scalar as an array key: a:1:{N;N;} is the map {"" => null} *)
 Example ex_lenient_key : unserialize [97;58;49;58;123; 78;59; 78;59; 125] = POk (VMap [([], VNull)]).
